@@ -110,6 +110,9 @@ def _einsum_cases(ctx):
                           mesh_shape=[z, x, y], rhs_spec=['z', 'x', 'y'], out_spec=['z', 'x', 'y']))
     out = []
     combos = [(True, False), (False, False), (None, True), (True, True), (False, True)]
+    variants = [dict(dtypes=['float64', 'float32'], repeat=True), dict(dtypes=['int32', 'int32']), dict(strided=True, precision='highest'),
+                dict(kind='ones', dtypes=['float32', 'float32']), dict(kind='ramp', dtypes=['float64', 'int32'], strided=True),
+                dict(dtypes=['float32', 'float64'], precision='tensorfloat32', repeat=True)]
     for k, cs_ in enumerate(cases):
         if not quick:
             sel = combos if cs_['subscripts'] in ('ij,jk->ik', 'gh,hml->gml', 'lgh,hml->gml') else [combos[(k + t) % 5] for t in range(3)]
@@ -119,8 +122,12 @@ def _einsum_cases(ctx):
             sel = [combos[k % 2]]
         else:
             sel = [combos[k % 5]]
-        for (g, rv) in sel:
-            out.append(dict(cs_, gather=g, rev=rv, seed=int(rng.integers(0, 2 ** 31))))
+        for t, (g, rv) in enumerate(sel):
+            c2 = dict(cs_, gather=g, rev=rv, seed=int(rng.integers(0, 2 ** 31)))
+            # operand forms / dtypes / precision / repetition: every 4th case in quick, every 2nd in thorough
+            if (k + t) % (4 if quick else 2) == 1:
+                c2.update(variants[(k // 2 + t) % len(variants)])
+            out.append(c2)
     return out
 
 
@@ -149,6 +156,15 @@ def generate(ctx):
             shape = [int(rng.integers(1, 4)) for _ in range(ndim)]; shape[axis] = n * c
             ctx.count('cumsum n=%d' % n)
             yield 'cumsum', dict(n=n, shape=shape, axis=axis, seed=int(rng.integers(0, 2 ** 31)))
+    # options / forms: method='jax' with a sharding, a sharded axis that is not the summed one (single-device path),
+    # float32 / integer inputs, read-only strided views, all-ones data (prefix sums = positions)
+    cv = [dict(n=4, shape=[8, 3], axis=0, dtype='float32'), dict(n=2, shape=[4, 5], axis=1, shard_axis=0),
+          dict(n=4, shape=[3, 8], axis=1, method='jax', kind='ones'), dict(n=8, shape=[8, 2], axis=0, dtype='int32', strided=True),
+          dict(n=6, shape=[2, 12, 2], axis=-2, kind='ones', strided=True), dict(n=2, shape=[6, 4], axis=-2, shard_axis=-1, dtype='float32'),
+          dict(n=3, shape=[9], axis=0, dtype='int64', kind='ramp'), dict(n=4, shape=[4, 4], axis=0, method='jax', shard_axis=1)]
+    for v in (cv[:5] if quick else cv):
+        yield 'cumsum', dict(v, seed=int(rng.integers(0, 2 ** 31)))
+    yield 'api', dict(seed=int(rng.integers(0, 2 ** 31)))
     # reshapes and longitude derivative under a mesh
     ms = [(1, 2, 2), (2, 4, 1), (2, 2, 2)] if quick else [(1, 2, 2), (2, 4, 1), (2, 2, 2), (1, 8, 1), (1, 4, 2), (1, 1, 1), (4, 2, 1), (1, 2, 4), (2, 1, 4)]
     for (z, x, y) in ms:
@@ -169,30 +185,53 @@ def generate(ctx):
 
     # ---- whole operators on a mesh (implementation-level oracle: sharded == unsharded, padding inert) ----
     all_meshes = [(z, x, y) for z in (1, 2, 4, 8) for x in (1, 2, 4, 8) for y in (1, 2, 4, 8) if z * x * y <= 8]
-    gm = [(2, 1, 1), (1, 4, 2), (2, 2, 2)] if quick else all_meshes
+    six = [(6, 1, 1), (1, 6, 1), (1, 1, 6), (3, 2, 1)]                  # even non-power-of-two rings, odd z
+    gm = [(2, 1, 1), (1, 4, 2), (2, 2, 2), six[int(rng.integers(1, 3))]] if quick else all_meshes + six
+    gopts = [dict(), dict(kind='top', clip_n=2), dict(stacked=True, rev=False), dict(kind='top', stacked=True),
+             dict(stacked=False, rev=True, radius=2.5, clip_n=3), dict(kind='const', stacked=True, rev=True), dict(kind='zero', precision='float32')]
     for i, (z, x, y) in enumerate(gm):
         L = int(rng.integers(4, 8)) if quick else int(rng.integers(4, 11))
         K = int(rng.choice([3, 5])) if z > 1 else int(rng.integers(1, 4))      # level counts not divisible by z
         base = [None, 1, 2][i % 3] if x * y > 1 or z > 1 else 4
         ctx.count('grid mesh=%dx%dx%d' % (z, x, y))
-        yield 'grid', dict(mesh=[z, x, y], L=L, K=K, base=base, seed=int(rng.integers(0, 2 ** 31)))
-    fm = [(None, 4, 8), ((1, 2, 2), None, 5), ((2, 2, 1), 2, 6), (None, 3, 7)] if quick else \
-        [(None, 4, 8), (None, 3, 7), (None, 8, 5), (None, 2, 6)] + [(m, [None, 1, 2, 4][k % 4], 4 + k % 6) for k, m in enumerate(all_meshes)]
-    for (m, base, L) in fm:
+        extra = dict(ranks=[['2-D'], ['surface']][i % 2]) if quick else {}
+        yield 'grid', dict(dict(mesh=[z, x, y], L=L, K=K, base=base, seed=int(rng.integers(0, 2 ** 31))), **gopts[i % len(gopts)], **extra)
+    # resolution / layout thresholds: wide and tall grids, longitude_nodes = 2 (wavenumbers - 1) and 2 (wavenumbers + 1),
+    # total_wavenumbers > longitude_wavenumbers + 1, base multiples 4 and 8, non-unit radius
+    dimsets = [[4, 5, 300, 6], [3, 9, 8, 150], [5, 6, 8, 5], [4, 9, 10, 7], [2, 3, 4, 3], [6, 6, 16, 9]]
+    lm = [((1, 2, 2), 4), ((2, 4, 1), 8)] if quick else [((1, 2, 2), 4), ((2, 4, 1), 8), ((1, 1, 8), 1), ((1, 8, 1), 2), ((2, 2, 2), 8), ((4, 1, 2), 4)]
+    for i, (m, base) in enumerate(lm):
+        dims = dimsets[(i + int(rng.integers(0, len(dimsets)))) % len(dimsets)] if quick else dimsets[i % len(dimsets)]
+        yield 'grid', dict(mesh=list(m), L=dims[0], K=[3, 1, 2][i % 3], base=base, dims=dims, seed=int(rng.integers(0, 2 ** 31)),
+                           radius=[None, 2.5][i % 2], stacked=[None, True][(i // 2) % 2], kind=['random', 'top'][i % 2],
+                           ranks=[] if quick else ['2-D', 'surface'])
+    for m in ([[(1, 3, 1), (1, 1, 3)][int(rng.integers(0, 2))]] if quick else [(1, 3, 1), (1, 1, 3), (2, 3, 1), (1, 5, 1), (1, 1, 7)]):
+        yield 'grid_reject', dict(mesh=list(m), L=4, seed=int(rng.integers(0, 2 ** 31)))
+    # the registered known finding (fixed, literal arguments: do not change without updating known_findings.json)
+    yield 'maybe_ambiguous', dict(grid='T21', mesh=[1, 2, 2], K=2, seed=7)
+    fm = [(None, 4, 8), ((1, 2, 2), None, 5), ((2, 2, 1), 2, 6), (None, 3, 7), (None, 8, 6)] if quick else \
+        [(None, 4, 8), (None, 3, 7), (None, 8, 5), (None, 2, 6)] + [(m, [None, 1, 2, 4][k % 4], 4 + k % 6) for k, m in enumerate(all_meshes + six)]
+    for i, (m, base, L) in enumerate(fm):
+        tau = float(rng.integers(1, 9)) / 16
+        ratio = [None, 1e-3, 1e3, 1.0, 30.0][i % 5]                     # dt / tau over many decades
+        dt = float(rng.integers(1, 9)) / 64 if ratio is None else tau * ratio
         yield 'filters', dict(mesh=list(m) if m else None, L=L, base=base, K=2, seed=int(rng.integers(0, 2 ** 31)),
-                              dt=float(rng.integers(1, 9)) / 64, tau=float(rng.integers(1, 9)) / 16, order=int(rng.integers(1, 4)))
-    im = [(2, 1, 1), (2, 2, 2), (4, 1, 2)] if quick else all_meshes
-    for (z, x, y) in im:
+                              dt=dt, tau=tau, order=int(rng.integers(1, 4)), cutoff=[0.25, 0.0, 0.6][i % 3],
+                              radius=[None, 3.0][i % 2], kind=['random', 'top', 'const'][i % 3])
+    im = [(2, 1, 1), (2, 2, 2), (4, 1, 2)] if quick else all_meshes + [(6, 1, 1), (3, 2, 1)]
+    for i, (z, x, y) in enumerate(im):
         k = int(rng.integers(1, 3)) if z > 1 else int(rng.integers(2, 5))
         b = util.uneven_boundaries(rng, z * k, 4).tolist()
         ctx.count('implicit mesh=%dx%dx%d' % (z, x, y))
-        yield 'implicit', dict(mesh=[z, x, y], L=int(rng.integers(4, 7)), bounds=b, seed=int(rng.integers(0, 2 ** 31)),
-                               eta=float(rng.integers(1, 33)) / 64)
+        eta = [float(rng.integers(1, 33)) / 64, 1e-3, 10.0, -0.25][i % 4]
+        yield 'implicit', dict(mesh=[z, x, y], L=int(rng.integers(4, 7)), bounds=b, seed=int(rng.integers(0, 2 ** 31)), eta=eta,
+                               radius=[None, 2.0][i % 2], consts=bool((i // 2) % 2), kind=['random', 'top', 'random', 'zero'][i % 4])
     if not quick:
-        for (z, x, y) in [(2, 1, 1), (1, 2, 2), (2, 2, 2), (1, 4, 2), (4, 2, 1), (8, 1, 1), (1, 1, 8), (1, 8, 1), (2, 1, 4), (4, 1, 1)]:
+        for i, (z, x, y) in enumerate([(2, 1, 1), (1, 2, 2), (2, 2, 2), (1, 4, 2), (4, 2, 1), (8, 1, 1), (1, 1, 8), (1, 8, 1), (2, 1, 4), (4, 1, 1), (1, 6, 1)]):
             k = 2 if z > 1 else 4
             b = util.uneven_boundaries(rng, max(z * k // (2 if z == 8 else 1), z), 4).tolist()
-            yield 'step', dict(mesh=[z, x, y], L=6, bounds=b, seed=int(rng.integers(0, 2 ** 31)))
+            yield 'step', dict(mesh=[z, x, y], L=6, bounds=b, seed=int(rng.integers(0, 2 ** 31)),
+                               advection=['centered', 'upwind', 'none'][i % 3], kind=['random', 'dry'][(i // 3) % 2], consts=bool(i % 2))
 
 
 # ---------------------------------------------------------------------------
@@ -292,27 +331,45 @@ def _einsum_model(ctx, a, lhs, rhs, gather, mesh_sizes):
     return out
 
 
+def _operand(seed, shape, kind='random', dtype='float64', strided=False):
+    """integer-valued operand; optionally a read-only, non-contiguous view of a larger array; 'ones' / 'ramp' make
+    index errors visible as counts"""
+    shape = list(shape)
+    full = idata(seed, [2 * shape[0]] + shape[1:]) if strided else idata(seed, shape)
+    if kind == 'ones': full = np.ones_like(full)
+    if kind == 'ramp': full = (np.arange(full.size, dtype=np.float64).reshape(full.shape) % 17) - 8
+    full = full.astype(dtype)
+    if strided:
+        full = full[::2]; full.setflags(write=False)
+        assert not full.flags['C_CONTIGUOUS'] or full.shape[0] <= 1 or full.ndim == 0
+    return full
+
+
 def r_einsum(ctx, a):
     jax, jnp, jnu, sh, cs = J()
     mesh = mesh_of(a['mesh_shape'], a['axis_names'])
     sizes = dict(zip(a['axis_names'], a['mesh_shape']))
-    lhs = idata(a['seed'], a['lhs_shape']); rhs = idata(a['seed'] + 1, a['rhs_shape'])
-    expected = np.einsum(a['subscripts'], lhs, rhs)
+    dl, dr = a.get('dtypes', ['float64', 'float64'])
+    lhs = _operand(a['seed'], a['lhs_shape'], a.get('kind', 'random'), dl, a.get('strided', False))
+    rhs = _operand(a['seed'] + 1, a['rhs_shape'], 'random', dr, a.get('strided', False))
+    expected = np.einsum(a['subscripts'], lhs.astype(np.float64), rhs.astype(np.float64))   # independent reference
     err = None
+    kw = dict(gather_inputs=a['gather'], reverse_arg_order=a['rev'], precision=a.get('precision', 'float32'), mesh=mesh,
+              rhs_spec=P(*a['rhs_spec']), out_spec=P(*a['out_spec']))
     try:
-        got = np.asarray(jnu.sharded_einsum(a['subscripts'], lhs, jnp.asarray(rhs), gather_inputs=a['gather'],
-                                            reverse_arg_order=a['rev'], precision='float32', mesh=mesh,
-                                            rhs_spec=P(*a['rhs_spec']), out_spec=P(*a['out_spec'])))
+        got = np.asarray(jnu.sharded_einsum(a['subscripts'], lhs, jnp.asarray(rhs), **kw))
     except Exception as e:  # rejection happens while tracing inside shard_map
         got = None; err = repr(e)
     gather = a['gather']
     if gather is None:
         gather = math.prod(expected.shape) > math.prod(rhs.shape)
-    mod = _einsum_model(ctx, a, lhs, rhs, gather, sizes)
+    lhs64 = lhs.astype(np.float64); rhs64 = rhs.astype(np.float64)
+    mod = _einsum_model(ctx, a, lhs64, rhs64, gather, sizes)
     Ls, rest = a['subscripts'].split(','); Rs, Os = rest.split('->')
     ri, ti = _impl_logic(Ls, Rs, Os, a['rhs_spec'], a['out_spec'])
     n = sizes[a['rhs_spec'][Rs.index(ri)]]
     ctx.count('einsum ring n=%d %s' % (n, 'gather' if gather else 'scatter'))
+    ctx.count('einsum dtypes=%s/%s strided=%s' % (dl, dr, bool(a.get('strided'))))
     want_reject = n > 1 and n % 2 == 1
     ctx.exact('sharded_einsum accepted', [got is not None], [mod is not None])
     ctx.oracle('odd mesh sizes > 1 are rejected (axis_size must be 1 or even), everything else accepted',
@@ -320,10 +377,44 @@ def r_einsum(ctx, a):
                {'n': n, 'error': err})
     if got is None or mod is None:
         return
-    scale = float(np.abs(lhs).max() * np.abs(rhs).max() * max(1, lhs.size)) + 1.0
+    scale = float(np.abs(lhs64).max() * np.abs(rhs64).max() * max(1, lhs.size)) + 1.0
     ctx.corr('sharded_einsum vs ring model', got, list(map(_F, mod.ravel())), scale=scale)
-    ctx.oracle_close('sharded einsum = unsharded einsum', got, expected, scale=scale, tol_rel=0.0)
+    ctx.oracle_close('sharded einsum = unsharded einsum', np.asarray(got, dtype=np.float64), expected, scale=scale, tol_rel=0.0)
     ctx.oracle('sharded einsum finite', bool(np.isfinite(got).all()))
+    single = jnu.sharded_einsum(a['subscripts'], lhs, jnp.asarray(rhs), mesh=None, precision=a.get('precision', 'float32'),
+                                rhs_spec=P(*a['rhs_spec']), out_spec=P(*a['out_spec']))
+    ctx.oracle('sharded einsum: same dtype and values as the mesh=None path',
+               bool(np.asarray(single).dtype == got.dtype and np.array_equal(np.asarray(single, dtype=np.float64), np.asarray(got, dtype=np.float64))),
+               [str(np.asarray(single).dtype), str(got.dtype)])
+    if a.get('repeat'):
+        # purity: the same call again, after a different call on the same mesh, is bit-identical
+        jnu.sharded_einsum(a['subscripts'], lhs, jnp.asarray(rhs[::-1].copy() if rhs.ndim else rhs), **kw)
+        again = np.asarray(jnu.sharded_einsum(a['subscripts'], lhs, jnp.asarray(rhs), **kw))
+        ctx.oracle('sharded einsum repeated is bit-identical', bool(np.array_equal(again, got)))
+
+
+def r_api(ctx, a):
+    """argument validation / option dispatch of sharded_einsum and cumsum that does not need a mesh"""
+    jax, jnp, jnu, sh, cs = J()
+    lhs = idata(a['seed'], [4, 4]); rhs = idata(a['seed'] + 1, [4, 3])
+    for subs, okay in (('ij,jk->ik', True), ('ij,...jk->...ik', False), ('ij,jk', False), ('ij,jk,kl->il', False), ('ij jk->ik', False)):
+        for mesh in (None, mesh_of([2, 1], ['x', 'y'])):
+            try:
+                r = jnu.sharded_einsum(subs, lhs, jnp.asarray(rhs), mesh=mesh, rhs_spec=P('x', 'y'), out_spec=P('x', 'y')); acc = True
+            except ValueError:
+                acc = False
+            ctx.oracle('sharded_einsum accepts exactly two-operand subscripts without ellipsis', acc == okay, [subs, acc])
+            if acc:
+                ctx.oracle_close('sharded einsum = unsharded einsum', np.asarray(r), lhs @ rhs, tol_rel=0.0)
+    x = idata(a['seed'] + 2, [6, 3])
+    for f in (jnu.cumsum, jnu.reverse_cumsum):
+        try: f(x, 0, method='foo'); acc = True
+        except ValueError: acc = False
+        ctx.oracle('cumsum rejects unknown methods', not acc)
+        for bad in (2, -3):
+            try: f(x, bad); acc = True
+            except (ValueError, IndexError): acc = False
+            ctx.oracle('cumsum rejects an out-of-range axis', not acc, bad)
 
 
 def _F(v):
@@ -335,22 +426,35 @@ def r_cumsum(ctx, a):
     jax, jnp, jnu, sh, cs = J()
     n = a['n']; shape = a['shape']; axis = a['axis']; nd = len(shape)
     ax = axis % nd
+    sax = a.get('shard_axis', axis) % nd          # the sharded axis need not be the summed one (single-device path)
+    method = a.get('method', 'dot'); dtype = a.get('dtype', 'float64')
     mesh = mesh_of([n], ['z'])
-    spec = [None] * nd; spec[ax] = 'z'
+    spec = [None] * nd; spec[sax] = 'z'
     sharding = jax.sharding.NamedSharding(mesh, P(*spec))
-    x = idata(a['seed'], shape)
+    x = _operand(a['seed'], shape, a.get('kind', 'random'), dtype, a.get('strided', False))
+    x64 = x.astype(np.float64)
     c = shape[ax] // n
-    scale = float(np.abs(x).sum(axis=ax).max()) + 1.0
+    sharded_sum = (sax == ax and method == 'dot')
+    ctx.count('cumsum method=%s dtype=%s %s' % (method, dtype, 'parallel' if sharded_sum else 'single-device path'))
+    scale = float(np.abs(x64).sum(axis=ax).max()) + 1.0
     for rev in (0, 1):
         f = jnu.reverse_cumsum if rev else jnu.cumsum
-        got = np.asarray(f(jax.device_put(jnp.asarray(x), sharding), axis, sharding=sharding))
-        single = np.asarray(f(jnp.asarray(x), axis))
-        seq = np.flip(np.cumsum(np.flip(x, ax), ax), ax) if rev else np.cumsum(x, ax)
-        for (idx, col), (_, gcol) in zip(util.columns(x, ax), util.columns(got, ax)):
-            ctx.corr(f'_parallel_dot_cumsum per device reverse={rev}', gcol, ctx.model.call(2, [n, c, rev], [col]), scale=scale)
-            ctx.corr(f'_dot_cumsum sharded reverse={rev}', gcol, ctx.model.call(3, [n, c, 1, rev], [col]), scale=scale)
+        xin = jax.device_put(jnp.asarray(x), sharding)
+        got_j = f(xin, axis, method=method, sharding=sharding)
+        got = np.asarray(got_j, dtype=np.float64)
+        single_j = f(jnp.asarray(x), axis, method=method)
+        single = np.asarray(single_j, dtype=np.float64)
+        seq = np.flip(np.cumsum(np.flip(x64, ax), ax), ax) if rev else np.cumsum(x64, ax)
+        for (idx, col), (_, gcol) in zip(util.columns(x64, ax), util.columns(got, ax)):
+            if sharded_sum:
+                ctx.corr(f'_parallel_dot_cumsum per device reverse={rev}', gcol, ctx.model.call(2, [n, c, rev], [col]), scale=scale)
+            ctx.corr(f'_dot_cumsum sharded={int(sharded_sum)} reverse={rev}', gcol,
+                     ctx.model.call(3, [n, c, int(sharded_sum), rev] if sharded_sum else [1, shape[ax], 0, rev], [col]), scale=scale)
         ctx.oracle_close(f'sharded cumsum = sequential cumsum (reverse={rev})', got, seq, scale=scale, tol_rel=0.0)
         ctx.oracle_close(f'sharded cumsum = unsharded dot cumsum (reverse={rev})', got, single, scale=scale, tol_rel=0.0)
+        ctx.oracle('sharded cumsum has the dtype of the unsharded one', got_j.dtype == single_j.dtype, [str(got_j.dtype), str(single_j.dtype)])
+        again = np.asarray(f(xin, axis, method=method, sharding=sharding), dtype=np.float64)
+        ctx.oracle('sharded cumsum repeated is bit-identical', bool(np.array_equal(again, got)))
 
 
 def r_reshape(ctx, a):
@@ -425,7 +529,7 @@ def r_vpad(ctx, a):
     ctx.oracle('padded levels are zeros', bool((np.asarray(padded)[K:] == 0).all()))
 
 
-RUNNERS = {'einsum': r_einsum, 'logic': r_logic, 'cumsum': r_cumsum, 'reshape': r_reshape, 'dlon': r_dlon,
+RUNNERS = {'einsum': r_einsum, 'api': r_api, 'logic': r_logic, 'cumsum': r_cumsum, 'reshape': r_reshape, 'dlon': r_dlon,
            'shapes': r_shapes, 'vpad': r_vpad}
 
 
@@ -435,18 +539,89 @@ RUNNERS = {'einsum': r_einsum, 'logic': r_logic, 'cumsum': r_cumsum, 'reshape': 
 _coords = {}
 
 
-def coords_of(mesh, L, bounds, base):
-    """CoordinateSystem with FastSphericalHarmonics; mesh None = single device."""
+def coords_of(mesh, L, bounds, base, opts=None):
+    """CoordinateSystem with FastSphericalHarmonics; mesh None = single device.
+    opts: stacked / rev (FastSphericalHarmonics options), radius, dims = [lw, tw, lon_nodes, lat_nodes]."""
     import functools
     jax, jnp, jnu, sh, cs = J()
     from dinosaur import sigma_coordinates as sc
-    key = (tuple(mesh) if mesh else None, L, tuple(bounds), base)
+    opts = {k: v for k, v in (opts or {}).items() if v is not None}
+    key = (tuple(mesh) if mesh else None, L, tuple(bounds), base, tuple(sorted((k, tuple(v) if isinstance(v, list) else v) for k, v in opts.items())))
     if key not in _coords:
-        impl = sh.FastSphericalHarmonics if base is None else functools.partial(sh.FastSphericalHarmonics, base_shape_multiple=base)
-        grid = sh.Grid.with_wavenumbers(longitude_wavenumbers=L, spherical_harmonics_impl=impl)
+        kw = {}
+        if base is not None: kw['base_shape_multiple'] = base
+        if 'stacked' in opts: kw['stacked_fourier_transforms'] = bool(opts['stacked'])
+        if 'rev' in opts: kw['reverse_einsum_arg_order'] = bool(opts['rev'])
+        if 'precision' in opts: kw['transform_precision'] = opts['precision']
+        impl = functools.partial(sh.FastSphericalHarmonics, **kw) if kw else sh.FastSphericalHarmonics
+        if 'dims' in opts:
+            lw, tw, lon, lat = opts['dims']
+            grid = sh.Grid(longitude_wavenumbers=lw, total_wavenumbers=tw, longitude_nodes=lon, latitude_nodes=lat,
+                           radius=opts.get('radius'), spherical_harmonics_impl=impl)
+        else:
+            grid = sh.Grid.with_wavenumbers(longitude_wavenumbers=L, spherical_harmonics_impl=impl, radius=opts.get('radius'))
         m = mesh_of(mesh, ['z', 'x', 'y']) if mesh else None
         _coords[key] = cs.CoordinateSystem(grid, sc.SigmaCoordinates(np.asarray(bounds, dtype=np.float64)), spmd_mesh=m)
     return _coords[key]
+
+
+def _grid_opts(a, unsharded=False):
+    """options of a case; the single-device reference keeps radius/dims but always uses the default (unstacked,
+    non-reversed) transforms, so every option is compared against the same plain computation."""
+    o = {'radius': a.get('radius'), 'dims': a.get('dims')}
+    if not unsharded:
+        o.update(stacked=a.get('stacked'), rev=a.get('rev'), precision=a.get('precision'))
+    return o
+
+
+# independent (numpy, from the documented layout) references on the unpadded FastSphericalHarmonics layout:
+# row i <-> m = i // 2 (even: cos, odd: sin; row 1 is the unused imaginary part of m = 0), column l.
+def _ref_mask(lw, tw):
+    i = np.arange(2 * lw)[:, None]; l = np.arange(tw)[None, :]
+    return ((i // 2) <= l) & (i != 1)
+
+
+def _ref_d_dlon(x):
+    out = np.zeros_like(x); m = (np.arange(x.shape[-2]) // 2)[:, None]
+    out[..., 0::2, :] = (m * 1.0)[0::2] * x[..., 1::2, :]
+    out[..., 1::2, :] = -(m * 1.0)[1::2] * x[..., 0::2, :]
+    return out
+
+
+def _ref_lap(x, radius):
+    l = np.arange(x.shape[-1]); return x * (-l * (l + 1) / radius ** 2)
+
+
+def _ref_inv_lap(x, radius):
+    l = np.arange(x.shape[-1]); w = np.zeros(x.shape[-1]); w[1:] = -radius ** 2 / (l[1:] * (l[1:] + 1)); return x * w
+
+
+def _ref_clip(x, n):
+    out = x.copy(); out[..., x.shape[-1] - n:] = 0; return out
+
+
+def _structured(kind, seed, shape, mask):
+    """modal test fields: random integers, a single non-zero coefficient at the highest retained wavenumbers, the
+    constant mode only, identically zero."""
+    x = idata(seed, shape) * mask
+    if kind == 'top':
+        y = np.zeros_like(x)
+        y[..., -1, -1] = x[..., -1, -1] + 10.0     # sin part of m = M-1, l = L-1 (masked in: M-1 <= L-1)
+        y[..., -2, -1] = 7.0; y[..., 0, -1] = -3.0
+        return y * mask
+    if kind == 'const':
+        y = np.zeros_like(x); y[..., 0, 0] = 5.0; return y
+    if kind == 'zero':
+        return np.zeros_like(x)
+    return x
+
+
+def _digest(sph):
+    import hashlib
+    h = hashlib.sha1()
+    for t in (sph.basis.f, sph.basis.p, sph.basis.w, sph.mask):
+        h.update(np.ascontiguousarray(np.asarray(t)).tobytes())
+    return h.hexdigest()
 
 
 def _pad_to(x, shape2):
@@ -468,27 +643,54 @@ def _cmp_padded(ctx, what, big, small, scale, pad_zero=True):
     ctx.oracle('%s: padding stays zero' % what, bool((rest == 0).all()), float(np.abs(rest).max()) if rest.size else 0.0)
 
 
+def r_grid_reject(ctx, a):
+    """odd x / y mesh sizes > 1 cannot be served by the two-way collectives: the transforms must raise, not return
+    wrong values (odd z is fine: only the cumulative sums run over z)."""
+    jax, jnp, jnu, sh, cs = J()
+    c1 = coords_of(a['mesh'], a['L'], [0.0, 0.5, 1.0], None)
+    g1 = c1.horizontal
+    x1 = idata(a['seed'], (2,) + g1.modal_shape)
+    for name, arg in (('to_nodal', x1), ('to_modal', idata(a['seed'], (2,) + g1.nodal_shape))):
+        try:
+            getattr(g1, name)(jnp.asarray(arg)); msg = None; raised = False
+        except Exception as e:
+            msg = repr(e); raised = True
+        ctx.oracle('odd mesh sizes > 1 are rejected (axis_size must be 1 or even), everything else accepted',
+                   raised and 'axis_size must be 1 or even' in msg, {'op': name, 'error': msg})
+
+
 def r_grid(ctx, a):
     jax, jnp, jnu, sh, cs = J()
     K = a['K']; b = np.linspace(0, 1, K + 1).tolist()
-    c0 = coords_of(None, a['L'], b, 1); c1 = coords_of(a['mesh'], a['L'], b, a['base'])
+    c0 = coords_of(None, a['L'], b, 1, _grid_opts(a, True)); c1 = coords_of(a['mesh'], a['L'], b, a['base'], _grid_opts(a))
     g0 = c0.horizontal; g1 = c1.horizontal
-    x0 = idata(a['seed'], (K,) + g0.modal_shape) * g0.mask
+    lw, tw = g0.longitude_wavenumbers, g0.total_wavenumbers
+    radius = a.get('radius') or 1.0
+    mask0 = _ref_mask(lw, tw)                       # independent of the implementation's own mask
+    ctx.oracle('mask (unpadded layout) = documented layout', bool(g0.modal_shape == mask0.shape and (g0.mask == mask0).all()))
+    ctx.oracle('mask of the padded layout = padded mask', bool((g1.mask == _pad_to(mask0, g1.modal_shape)).all()))
+    dig = _digest(g1.spherical_harmonics)
+    x0 = _structured(a.get('kind', 'random'), a['seed'], (K,) + g0.modal_shape, mask0)
     x1 = _pad_to(x0, g1.modal_shape)
-    ctx.oracle('mask of the padded layout = padded mask', bool((g1.mask == _pad_to(g0.mask, g1.modal_shape)).all()))
+    ctx.count('grid data=%s stacked=%s rev=%s' % (a.get('kind', 'random'), a.get('stacked'), a.get('rev')))
     n0 = np.asarray(g0.to_nodal(jnp.asarray(x0))); n1 = np.asarray(g1.to_nodal(jnp.asarray(x1)))
     _cmp_padded(ctx, 'to_nodal', n1, n0, 4 * float(np.abs(x0).sum(axis=(1, 2)).max()) + 1)
     y0 = idata(a['seed'] + 3, (K,) + g0.nodal_shape); y1 = _pad_to(y0, g1.nodal_shape)
     m0 = np.asarray(g0.to_modal(jnp.asarray(y0))); m1 = np.asarray(g1.to_modal(jnp.asarray(y1)))
     _cmp_padded(ctx, 'to_modal', m1, m0, float(np.abs(y0).sum(axis=(1, 2)).max()) + 1)
     d0 = np.asarray(g0.d_dlon(jnp.asarray(x0))); d1 = np.asarray(g1.d_dlon(jnp.asarray(x1)))
-    _cmp_padded(ctx, 'd_dlon', d1, d0, float(np.abs(x0).max() * a['L']) + 1)
+    dscale = float(np.abs(x0).max() * lw) + 1
+    _cmp_padded(ctx, 'd_dlon', d1, d0, dscale)
+    _cmp_padded(ctx, 'd_dlon vs the documented recurrence', d1, _ref_d_dlon(x0), dscale)
     # all field ranks the code supports: 3-D (levels, m, l), surface (1, m, l) and plain 2-D (m, l)
     for tag, sl in (('2-D field', 0), ('surface field', slice(0, 1))):
+        if tag.split()[0] not in a.get('ranks', ['2-D', 'surface']): continue
         e0 = np.asarray(g0.d_dlon(jnp.asarray(x0[sl]))); e1 = np.asarray(g1.d_dlon(jnp.asarray(x1[sl])))
-        _cmp_padded(ctx, 'd_dlon (%s)' % tag, e1, e0, float(np.abs(x0).max() * a['L']) + 1)
+        _cmp_padded(ctx, 'd_dlon (%s)' % tag, e1, e0, dscale)
         f0 = np.asarray(g0.to_nodal(jnp.asarray(x0[sl]))); f1 = np.asarray(g1.to_nodal(jnp.asarray(x1[sl])))
         _cmp_padded(ctx, 'to_nodal (%s)' % tag, f1, f0, 4 * float(np.abs(x0).sum(axis=(1, 2)).max()) + 1)
+        h0 = np.asarray(g0.to_modal(jnp.asarray(y0[sl]))); h1 = np.asarray(g1.to_modal(jnp.asarray(y1[sl])))
+        _cmp_padded(ctx, 'to_modal (%s)' % tag, h1, h0, float(np.abs(y0).sum(axis=(1, 2)).max()) + 1)
         for name in ('cos_lat_d_dlat', 'laplacian'):
             r0 = np.asarray(getattr(g0, name)(jnp.asarray(x0[sl]))); r1 = np.asarray(getattr(g1, name)(jnp.asarray(x1[sl])))
             _cmp_padded(ctx, '%s (%s)' % (name, tag), r1, r0, float(np.abs(r0).max()) * 4 + 1, pad_zero=(name != 'cos_lat_d_dlat'))
@@ -497,50 +699,120 @@ def r_grid(ctx, a):
         if a.get('no_model'): break          # oracle-only use from the C01 / C09 plugins (their model has no such command)
         if idx[1] < 2:     # two columns per level are enough (each costs a model call)
             ctx.corr('Grid.d_dlon on mesh vs model', dcol, ctx.model.call(6, [M1, a['mesh'][1]], [col]), scale=float(np.abs(x0).max() * M1) + 1)
+    cn = int(a.get('clip_n', 1))
+    refs = {'laplacian': _ref_lap(x0, radius), 'inverse_laplacian': _ref_inv_lap(x0, radius), 'clip_wavenumbers': _ref_clip(x0, cn)}
     for name in ('cos_lat_d_dlat', 'laplacian', 'inverse_laplacian', 'clip_wavenumbers'):
-        r0 = np.asarray(getattr(g0, name)(jnp.asarray(x0))); r1 = np.asarray(getattr(g1, name)(jnp.asarray(x1)))
+        kw = {'n': cn} if name == 'clip_wavenumbers' else {}
+        r0 = np.asarray(getattr(g0, name)(jnp.asarray(x0), **kw)); r1 = np.asarray(getattr(g1, name)(jnp.asarray(x1), **kw))
         # cos_lat_d_dlat documents an artifact in the highest wavenumber: on a padded layout it lands in the
         # first padded column (l = L); it must be inert, i.e. invisible after the next transform
         _cmp_padded(ctx, name, r1, r0, float(np.abs(r0).max()) * 4 + 1, pad_zero=(name != 'cos_lat_d_dlat'))
+        if name in refs:
+            _cmp_padded(ctx, '%s vs its definition' % name, r1, refs[name], float(np.abs(refs[name]).max()) * 4 + 1)
         if name == 'cos_lat_d_dlat':
             _cmp_padded(ctx, 'to_nodal(cos_lat_d_dlat)', np.asarray(g1.to_nodal(jnp.asarray(r1))),
                         np.asarray(g0.to_nodal(jnp.asarray(r0))), 4 * float(np.abs(r0).sum(axis=(1, 2)).max()) + 1)
-    if K % a['mesh'][0] == 0:
-        s1 = np.asarray(c1.with_dycore_sharding(jnp.asarray(x1)))
-        ctx.oracle('with_dycore_sharding is the identity', bool((s1 == x1).all()))
+    # pytrees with scalars, and purity: same object, same input, after other work -> bit-identical; tables untouched
+    t1 = g1.to_nodal({'f': jnp.asarray(x1), 's': 1.5})
+    ctx.oracle('to_nodal repeated (inside a pytree, after other calls) is bit-identical',
+               bool(np.array_equal(np.asarray(t1['f']), n1)) and float(t1['s']) == 1.5)
+    ctx.oracle('to_modal repeated is bit-identical', bool(np.array_equal(np.asarray(g1.to_modal(jnp.asarray(y1))), m1)))
+    ctx.oracle('cached basis tables / mask are not mutated by the transforms', _digest(g1.spherical_harmonics) == dig)
+    # maybe_to_nodal / maybe_to_modal decide by shape equality: only meaningful where the padded nodal and modal
+    # shapes differ (on coinciding layouts the call is ambiguous by construction: counted, not judged)
+    z, xm, ym = a['mesh']
+    if K % z != 0:
+        pass      # maybe_to_* impose the dycore sharding, which needs a level count divisible by z
+    elif g1.nodal_shape == g1.modal_shape:
+        ctx.count('maybe_to_*: ambiguous layout (nodal_shape == modal_shape) skipped')
+    else:
+        ctx.count('maybe_to_*: checked')
+        tr = cs.maybe_to_nodal({'m': jnp.asarray(x1), 'n': jnp.asarray(y1)}, c1)
+        _cmp_padded(ctx, 'maybe_to_nodal(modal)', np.asarray(tr['m']), n0, 4 * float(np.abs(x0).sum(axis=(1, 2)).max()) + 1)
+        ctx.oracle('maybe_to_nodal(nodal) is the identity', bool(np.array_equal(np.asarray(tr['n']), y1)))
+        tr = cs.maybe_to_modal({'m': jnp.asarray(x1), 'n': jnp.asarray(y1)}, c1)
+        _cmp_padded(ctx, 'maybe_to_modal(nodal)', np.asarray(tr['n']), m0, float(np.abs(y0).sum(axis=(1, 2)).max()) + 1)
+        ctx.oracle('maybe_to_modal(modal) is the identity', bool(np.array_equal(np.asarray(tr['m']), x1)))
+    # sharding constraints are semantically the identity (3-D, surface, 2-D leaves and scalars)
+    if K % z == 0:
+        tree = {'v': jnp.asarray(x1), 'p': jnp.asarray(x1[:1]), 'o': jnp.asarray(x1[0]), 's': 2.5}
+        fns = [('with_dycore_sharding', c1.with_dycore_sharding)]
+        if g1.modal_shape[0] % (xm * z) == 0:
+            fns += [('with_physics_sharding', c1.with_physics_sharding), ('dycore_to_physics_sharding', c1.dycore_to_physics_sharding),
+                    ('physics_to_dycore_sharding', c1.physics_to_dycore_sharding)]
+        for nm, fn in fns:
+            try:
+                o = fn(tree)
+                ok = all(np.array_equal(np.asarray(o[k]), np.asarray(tree[k])) for k in ('v', 'p', 'o')) and float(o['s']) == 2.5
+                det = None
+            except Exception as e:
+                ok = False; det = repr(e)[:300]
+            ctx.oracle('%s is the identity' % nm, ok, det)
 
 
 def r_filters(ctx, a):
     jax, jnp, jnu, sh, cs = J()
     from dinosaur import filtering, time_integration as ti
     K = a['K']; b = np.linspace(0, 1, K + 1).tolist()
-    c0 = coords_of(None, a['L'], b, 1); c1 = coords_of(a['mesh'], a['L'], b, a['base'])
+    opts = {'radius': a.get('radius')}
+    c0 = coords_of(None, a['L'], b, 1, opts); c1 = coords_of(a['mesh'], a['L'], b, a['base'], opts)
     g0 = c0.horizontal; g1 = c1.horizontal
+    radius = a.get('radius') or 1.0
     ctx.count('filters padding=%s' % (tuple(g1.modal_padding),))
-    x0 = {'u': idata(a['seed'], (K,) + g0.modal_shape) * g0.mask, 'p': idata(a['seed'] + 1, (1,) + g0.modal_shape) * g0.mask}
+    mask0 = _ref_mask(g0.longitude_wavenumbers, g0.total_wavenumbers)
+    kind = a.get('kind', 'random')
+    x0 = {'u': _structured(kind, a['seed'], (K,) + g0.modal_shape, mask0), 'p': _structured(kind, a['seed'] + 1, (1,) + g0.modal_shape, mask0)}
     x1 = {k: _pad_to(v, g1.modal_shape) for k, v in x0.items()}
-    fs = {'exponential_step_filter': lambda g: ti.exponential_step_filter(g, a['dt'], a['tau'], a['order'] + 1, 0.25),
-          'horizontal_diffusion_step_filter': lambda g: ti.horizontal_diffusion_step_filter(g, a['dt'], a['tau'], a['order'])}
+    dt, tau, order = a['dt'], a['tau'], a['order']
+    cutoff = a.get('cutoff', 0.25)
+    # independent numpy formulas of the documented damping factors (l = total wavenumber, Lmax = tw - 1)
+    l = np.arange(g0.total_wavenumbers, dtype=np.float64); k = l / l.max()
+    ref_exp = lambda att, p, c: np.exp((k > c) * (-att * (((k - c) / (1 - c)) ** (2 * p))))
+    lam = l * (l + 1) / radius ** 2
+    refs = {'exponential_step_filter': ref_exp(dt / tau, order + 1, cutoff),
+            'horizontal_diffusion_step_filter': np.exp(-(dt / (tau * lam.max() ** order)) * lam ** order),
+            'exponential_filter': ref_exp(16, order + 1, 0.5),
+            'horizontal_diffusion_filter': np.exp(-(dt * 1e-3) * lam ** order)}
+    fs = {'exponential_step_filter': lambda g: ti.exponential_step_filter(g, dt, tau, order + 1, cutoff),
+          'horizontal_diffusion_step_filter': lambda g: ti.horizontal_diffusion_step_filter(g, dt, tau, order)}
     for name, mk in fs.items():
         r0 = mk(g0)(x0, x0); r1 = mk(g1)(x1, x1)
-        for k in x0:
-            _cmp_padded(ctx, name, r1[k], r0[k], float(np.abs(x0[k]).max()) + 1)
-    fs2 = {'exponential_filter': lambda g: filtering.exponential_filter(g, 16, a['order'] + 1, 0.5),
-           'horizontal_diffusion_filter': lambda g: filtering.horizontal_diffusion_filter(g, a['dt'] * 1e-3, a['order'])}
+        for kk in x0:
+            _cmp_padded(ctx, name, r1[kk], r0[kk], float(np.abs(x0[kk]).max()) + 1)
+            _cmp_padded(ctx, name + ' vs its formula', r1[kk], x0[kk] * refs[name], float(np.abs(x0[kk]).max()) + 1)
+    # leapfrog form: only the future slice is filtered
+    lf0 = ti.exponential_leapfrog_step_filter(g0, dt, tau, order + 1, cutoff)(None, (x0, x0))
+    lf1 = ti.exponential_leapfrog_step_filter(g1, dt, tau, order + 1, cutoff)(None, (x1, x1))
+    for kk in x0:
+        ctx.oracle('exponential_leapfrog_step_filter leaves the current slice untouched', bool(np.array_equal(np.asarray(lf1[0][kk]), x1[kk])))
+        _cmp_padded(ctx, 'exponential_leapfrog_step_filter', lf1[1][kk], lf0[1][kk], float(np.abs(x0[kk]).max()) + 1)
+        _cmp_padded(ctx, 'exponential_leapfrog_step_filter vs its formula', lf1[1][kk], x0[kk] * refs['exponential_step_filter'],
+                    float(np.abs(x0[kk]).max()) + 1)
+    fs2 = {'exponential_filter': lambda g: filtering.exponential_filter(g, 16, order + 1, 0.5),
+           'horizontal_diffusion_filter': lambda g: filtering.horizontal_diffusion_filter(g, dt * 1e-3, order)}
     for name, mk in fs2.items():
         r0 = mk(g0)(x0); r1 = mk(g1)(x1)
-        for k in x0:
-            _cmp_padded(ctx, name, r1[k], r0[k], float(np.abs(x0[k]).max()) + 1)
+        for kk in x0:
+            _cmp_padded(ctx, name, r1[kk], r0[kk], float(np.abs(x0[kk]).max()) + 1)
+            _cmp_padded(ctx, name + ' vs its formula', r1[kk], x0[kk] * refs[name], float(np.abs(x0[kk]).max()) + 1)
+    # per-level attenuation (array-valued filter parameter) and repeated application of the same filter object
+    att = (np.arange(K) + 1.0)[:, None, None] * 4.0
+    f1 = filtering.exponential_filter(g1, att, order + 1, 0.5); f0 = filtering.exponential_filter(g0, att, order + 1, 0.5)
+    a1 = np.asarray(f1(x1['u'])); _cmp_padded(ctx, 'exponential_filter (per-level attenuation)', a1, f0(x0['u']), float(np.abs(x0['u']).max()) + 1)
+    ref = np.stack([x0['u'][i] * ref_exp(att[i, 0, 0], order + 1, 0.5) for i in range(K)])
+    _cmp_padded(ctx, 'exponential_filter (per-level attenuation) vs its formula', a1, ref, float(np.abs(x0['u']).max()) + 1)
+    f1(x1['p'])
+    ctx.oracle('filter object reused: bit-identical result', bool(np.array_equal(np.asarray(f1(x1['u'])), a1)))
 
 
-def _pe_state(pe, c0, c1, K, seed, scales=(1.0, 1.0, 1.0, 1.0), tracers=False):
+def _pe_state(pe, c0, c1, K, seed, scales=(1.0, 1.0, 1.0, 1.0), tracers=False, kind='random'):
     jnp = J()[1]
-    ms = c0.horizontal.modal_shape; mask = c0.horizontal.mask
+    ms = c0.horizontal.modal_shape; mask = _ref_mask(c0.horizontal.longitude_wavenumbers, c0.horizontal.total_wavenumbers)
 
     def mkst(c):
         fields = []
         for i, (k, sc_) in enumerate(zip((K, K, K, 1, K), tuple(scales) + (scales[0],))):
-            fields.append(jnp.asarray(_pad_to(sc_ * idata(seed + i, (k,) + ms) * mask, c.horizontal.modal_shape)))
+            fields.append(jnp.asarray(_pad_to(sc_ * _structured('zero' if (kind == 'dry' and i == 4) else ('random' if kind == 'dry' else kind), seed + i, (k,) + ms, mask), c.horizontal.modal_shape)))
         return pe.State(vorticity=fields[0], divergence=fields[1], temperature_variation=fields[2],
                         log_surface_pressure=fields[3], tracers={'q': fields[4]} if tracers else {})
     return mkst(c0), mkst(c1)
@@ -555,38 +827,98 @@ def _cmp_states(ctx, what, s1, s0, rel=16.0):
         _cmp_padded(ctx, '%s.tracers' % what, a1, a0, rel * float(np.abs(a0).max()) + 1e-30)
 
 
-def _pe_setup(a, tracers=False, scales=(1.0, 1.0, 1.0, 1.0)):
-    from dinosaur import primitive_equations as pe
+def _pe_setup(a, tracers=False, scales=(1.0, 1.0, 1.0, 1.0), **eqkw):
+    from dinosaur import primitive_equations as pe, scales as dscales
     b = a['bounds']; K = len(b) - 1
-    c0 = coords_of(None, a['L'], b, 1); c1 = coords_of(a['mesh'], a['L'], b, None)
-    specs = pe.PrimitiveEquationsSpecs.from_si()
+    opts = {'radius': a.get('radius')}
+    c0 = coords_of(None, a['L'], b, 1, opts); c1 = coords_of(a['mesh'], a['L'], b, None, opts)
+    if a.get('consts'):      # non-default physical constants
+        u = dscales.units
+        specs = pe.PrimitiveEquationsSpecs.from_si(ideal_gas_constant_si=300.0 * u.J / u.kilogram / u.kelvin,
+                                                   kappa_si=0.25 * u.dimensionless, angular_velocity_si=1e-4 / u.s)
+    else:
+        specs = pe.PrimitiveEquationsSpecs.from_si()
     Tref = 250.0 + 10.0 * np.arange(K)
-    eq0 = pe.PrimitiveEquations(Tref, np.zeros(c0.horizontal.modal_shape), c0, specs)
-    eq1 = pe.PrimitiveEquations(Tref, np.zeros(c1.horizontal.modal_shape), c1, specs)
-    s0, s1 = _pe_state(pe, c0, c1, K, a['seed'], scales, tracers)
+    eq0 = pe.PrimitiveEquations(Tref, np.zeros(c0.horizontal.modal_shape), c0, specs, **eqkw)
+    eq1 = pe.PrimitiveEquations(Tref, np.zeros(c1.horizontal.modal_shape), c1, specs, **eqkw)
+    s0, s1 = _pe_state(pe, c0, c1, K, a['seed'], scales, tracers, a.get('kind', 'random'))
     return pe, eq0, eq1, s0, s1
 
 
 def r_implicit(ctx, a):
+    import dataclasses
     pe, eq0, eq1, s0, s1 = _pe_setup(a)
-    _cmp_states(ctx, 'implicit_terms', eq1.implicit_terms(s1), eq0.implicit_terms(s0))
+    ctx.count('implicit data=%s radius=%s consts=%s' % (a.get('kind', 'random'), a.get('radius'), bool(a.get('consts'))))
+    i1 = eq1.implicit_terms(s1)
+    _cmp_states(ctx, 'implicit_terms', i1, eq0.implicit_terms(s0))
+    inv = {}
     for m in ('split', 'stacked', 'blockwise'):
-        _cmp_states(ctx, 'implicit_inverse[%s]' % m, eq1.implicit_inverse(s1, a['eta'], method=m),
-                    eq0.implicit_inverse(s0, a['eta'], method='split'), rel=64.0)
+        inv[m] = eq1.implicit_inverse(s1, a['eta'], method=m)
+        _cmp_states(ctx, 'implicit_inverse[%s]' % m, inv[m], eq0.implicit_inverse(s0, a['eta'], method='split'), rel=64.0)
     # both vertical matmul strategies on the mesh
     for vm in ('dense', 'sparse'):
-        import dataclasses
         eqv = dataclasses.replace(eq1, vertical_matmul_method=vm)
         _cmp_states(ctx, 'implicit_terms[%s]' % vm, eqv.implicit_terms(s1), eq0.implicit_terms(s0))
+    # purity: same equation object, same state, after the other calls
+    again = eq1.implicit_terms(s1)
+    ctx.oracle('implicit_terms repeated on the same object is bit-identical',
+               all(np.array_equal(np.asarray(getattr(again, f)), np.asarray(getattr(i1, f)))
+                   for f in ('divergence', 'temperature_variation', 'log_surface_pressure')))
+    again = eq1.implicit_inverse(s1, a['eta'], method='split')
+    ctx.oracle('implicit_inverse repeated on the same object is bit-identical',
+               all(np.array_equal(np.asarray(getattr(again, f)), np.asarray(getattr(inv['split'], f)))
+                   for f in ('divergence', 'temperature_variation', 'log_surface_pressure')))
 
 
 def r_step(ctx, a):
     jax = J()[0]
-    from dinosaur import time_integration as ti
-    pe, eq0, eq1, s0, s1 = _pe_setup(a, tracers=True, scales=(1e-3, 1e-3, 1e-2, 1e-3))
+    from dinosaur import time_integration as ti, sigma_coordinates as sc
+    eqkw = {}
+    if a.get('advection') == 'upwind': eqkw['vertical_advection'] = sc.upwind_vertical_advection
+    if a.get('advection') == 'none': eqkw['include_vertical_advection'] = False
+    ctx.count('step advection=%s data=%s' % (a.get('advection', 'centered'), a.get('kind', 'random')))
+    pe, eq0, eq1, s0, s1 = _pe_setup(a, tracers=True, scales=(1e-3, 1e-3, 1e-2, 1e-3), **eqkw)
     _cmp_states(ctx, 'explicit_terms', jax.jit(eq1.explicit_terms)(s1), jax.jit(eq0.explicit_terms)(s0), rel=64.0)
     _cmp_states(ctx, 'imex_rk_sil3 step', jax.jit(ti.imex_rk_sil3(eq1, time_step=0.01))(s1),
                 jax.jit(ti.imex_rk_sil3(eq0, time_step=0.01))(s0), rel=64.0)
 
 
-RUNNERS.update({'grid': r_grid, 'filters': r_filters, 'implicit': r_implicit, 'step': r_step})
+def r_maybe_ambiguous(ctx, a):
+    """KNOWN FINDING (inherent to the shape-based dispatch of maybe_to_nodal / maybe_to_modal): on padded layouts
+    whose nodal and modal shapes coincide a modal field is taken for a nodal one (and vice versa) and returned
+    unchanged, so the sharded call differs from the unsharded one.  One fixed case; the first clause fails on the
+    unchanged tree and is registered in known_findings.json, the other clauses state what still holds."""
+    jax, jnp, jnu, sh, cs = J()
+    from dinosaur import sigma_coordinates as sc
+    K = a['K']
+    mk = getattr(sh.Grid, a['grid'])
+    c0 = cs.CoordinateSystem(mk(spherical_harmonics_impl=sh.FastSphericalHarmonics), sc.SigmaCoordinates.equidistant(K))
+    c1 = cs.CoordinateSystem(mk(spherical_harmonics_impl=sh.FastSphericalHarmonics), sc.SigmaCoordinates.equidistant(K),
+                             spmd_mesh=mesh_of(a['mesh'], ['z', 'x', 'y']))
+    g0 = c0.horizontal; g1 = c1.horizontal
+    mask0 = _ref_mask(g0.longitude_wavenumbers, g0.total_wavenumbers)
+    x0 = idata(a['seed'], (K,) + g0.modal_shape) * mask0; x1 = _pad_to(x0, g1.modal_shape)
+    y0 = idata(a['seed'] + 1, (K,) + g0.nodal_shape); y1 = _pad_to(y0, g1.nodal_shape)
+    n0 = np.asarray(cs.maybe_to_nodal(jnp.asarray(x0), c0)); n1 = np.asarray(cs.maybe_to_nodal(jnp.asarray(x1), c1))
+    m0 = np.asarray(cs.maybe_to_modal(jnp.asarray(y0), c0)); m1 = np.asarray(cs.maybe_to_modal(jnp.asarray(y1), c1))
+    sn = 4 * float(np.abs(x0).sum(axis=(1, 2)).max()) + 1; sm = float(np.abs(y0).sum(axis=(1, 2)).max()) + 1
+    a_, b_ = g0.nodal_shape; c_, d_ = g0.modal_shape
+    ok = bool(n1.shape[-2:] >= (a_, b_) and np.all(np.abs(n1[..., :a_, :b_] - n0) <= ctx.tol_rel * sn)
+              and np.all(np.abs(m1[..., :c_, :d_] - m0) <= ctx.tol_rel * sm))
+    ctx.oracle('maybe_to_nodal / maybe_to_modal on a mesh: sharded result (padding removed) = unsharded result, '
+               'also when the padded nodal and modal shapes coincide', ok,
+               {'nodal_shape': list(g1.nodal_shape), 'modal_shape': list(g1.modal_shape),
+                'max |maybe_to_nodal sharded - unsharded|': float(np.abs(n1[..., :a_, :b_] - n0).max()),
+                'max |maybe_to_modal sharded - unsharded|': float(np.abs(m1[..., :c_, :d_] - m0).max())})
+    # what still holds
+    ctx.oracle('this layout is ambiguous: padded nodal_shape == modal_shape', g1.nodal_shape == g1.modal_shape, [list(g1.nodal_shape), list(g1.modal_shape)])
+    ctx.oracle('unsharded layout is not ambiguous', g0.nodal_shape != g0.modal_shape)
+    _cmp_padded(ctx, 'explicit to_nodal on the ambiguous layout', np.asarray(g1.to_nodal(jnp.asarray(x1))), np.asarray(g0.to_nodal(jnp.asarray(x0))), sn)
+    _cmp_padded(ctx, 'explicit to_modal on the ambiguous layout', np.asarray(g1.to_modal(jnp.asarray(y1))), np.asarray(g0.to_modal(jnp.asarray(y0))), sm)
+    ctx.oracle_close('unsharded maybe_to_nodal(modal) = to_nodal', n0, np.asarray(g0.to_nodal(jnp.asarray(x0))), scale=sn)
+    ctx.oracle_close('unsharded maybe_to_modal(nodal) = to_modal', m0, np.asarray(g0.to_modal(jnp.asarray(y0))), scale=sm)
+    ctx.oracle('maybe_to_* on the mesh return finite values', bool(np.isfinite(n1).all() and np.isfinite(m1).all()))
+
+
+RUNNERS.update({'grid': r_grid, 'grid_reject': r_grid_reject, 'filters': r_filters, 'implicit': r_implicit, 'step': r_step,
+                'maybe_ambiguous': r_maybe_ambiguous})
